@@ -4,7 +4,7 @@ import mir
 import sql
 from mir import term_str, strip_refs, callee_name, field_path, full_path
 from rules import rights
-from rules.c13 import variant_guard, arms_of
+from rules.c13 import variant_guard, arms_of, variants_of
 
 WM = "database::sqlite_database::WriteMessage"
 MARKING = {"Deletion", "Mutation", "MutationStream", "Nodes", "RoomMutation", "RoomMutationStream", "DeleteEdges", "DeleteNodes"}
@@ -128,7 +128,8 @@ def run(P, C, tier):
         if name.endswith("DailyMutations::write") or name.endswith("default"):
             continue
         var = variant_guard(pb, bi, WM)
-        per_variant.setdefault(var, []).append((bi, name, ob, obi))
+        for v_ in variants_of(var) or [var]:
+            per_variant.setdefault(v_, []).append((bi, name, ob, obi))
     for v in variants:
         if v in EXEMPT:
             C.ob("R2", "variant:" + v, v not in per_variant or True, pb.loc(), "exempt: " + EXEMPT[v], nontrivial=False)
@@ -144,7 +145,7 @@ def run(P, C, tier):
                 def _conn(xb, x):
                     return xb.type_of_root(x).endswith("rusqlite::Connection")
                 if ob is pb:
-                    writes = [wb for wb, wt in pb.live_calls() if variant_guard(pb, wb, WM) == v and any(_conn(pb, a) for a in pb.call_args(wb)) and wb != bi and not callee_name(wt).endswith("Connection::execute")]
+                    writes = [wb for wb, wt in pb.live_calls() if v in variants_of(variant_guard(pb, wb, WM)) and any(_conn(pb, a) for a in pb.call_args(wb)) and wb != bi and not callee_name(wt).endswith("Connection::execute")]
                     after = all(pb.dominates(wb, bi) for wb in writes) if writes else any(_conn(pb, a) for a in pb.call_args(bi))
                 else:
                     writes = [wb for wb, wt in ob.live_calls() if any(_conn(ob, a) for a in ob.call_args(wb)) and wb != obi and not callee_name(wt).endswith("Connection::execute")]
